@@ -243,6 +243,29 @@ Definition run_line (m : mode) (line : list N) : list N :=
             join (s2l " ; ") (run_live_ops p m (sync_connect_ctx p slave tmo) (split_ops ops [])) ++ s2l " ; timing_ok=1"
         | _, _ => err "live"
         end
+      else if is h "TIDS" then
+        (* several TCP client contexts, calls interleaved in the given order: every context numbers its own requests,
+           whatever the others do.  `pr` = number of contexts, rest = [order] *)
+        match parse_dec pr, rest with
+        | Some n, [order] =>
+            match parse_list parse_dec order with
+            | Some idx =>
+                let one (i : N) : list N :=
+                  let calls := filter (N.eqb i) idx in
+                  let step (acc : list (list N) * cstate) (_ : N) :=
+                    let st0 := mkC (framed (snd acc)) (rst (snd acc)) (mkW (wbuf (wio_ (snd acc))) (wq (wio_ (snd acc))) (fq (wio_ (snd acc))) [])
+                                   (rq (snd acc)) (sq (snd acc)) (next_tid (snd acc)) (unit_id (snd acc)) (shutdowns (snd acc)) in
+                    let '(_, st1) := call TCP m st0 (ReqReadHoldingRegisters 1 1) None in
+                    (fst acc ++ [match accepted (wio_ st1) with a :: b :: _ => show_dec (of_be16 a b) | _ => [ch_dash] end], st1) in
+                  match fst (fold_left step calls ([], client_new TCP 1)) with
+                  | [] => [ch_dash]
+                  | ids => join [ch_dot] ids
+                  end in
+                join [124] (map one (map N.of_nat (seq 0 (N.to_nat n))))
+            | None => err "tidsorder"
+            end
+        | _, _ => err "tids"
+        end
       else if is h "SURVIVE" then
         (* connections established before another connection's setup fails (serve returns the error) or is rejected:
            every connection is its own machine -- it goes on serving whatever the accept loop does afterwards.
